@@ -30,9 +30,15 @@ def idx_of_x2(pos, xx2):
 
 def neighbours(pos_from, pos_to, j):
     """indices (lo, hi) into the pos_from array of the two input points adjacent to target
-    point j of pos_to (at x -/+ 1/2)"""
-    c = x2(pos_to, j)
-    return idx_of_x2(pos_from, c - 1), idx_of_x2(pos_from, c + 1)
+    point j of pos_to (at x -/+ 1/2).  With doubled coordinates x2 = 2*i + off(pos): the lower
+    neighbour has 2*lo + off_from = 2*j + off_to - 1, a linear relation (off_to - 1 - off_from is even
+    for every centre<->face shift)."""
+    off = {"center": 1, "left": 0, "right": 2, "outer": 0, "inner": 2}
+    dlo = off[pos_to] - 1 - off[pos_from]
+    dhi = off[pos_to] + 1 - off[pos_from]
+    if dlo % 2 or dhi % 2:
+        raise ValueError(f"{pos_from}->{pos_to} is not a shift between adjacent staggered positions")
+    return j + dlo // 2, j + dhi // 2
 
 
 # ---- boundary extension -------------------------------------------------------------------
@@ -112,3 +118,32 @@ def link_sign(kind, axis, same_axis, reverse):
     if (not along) and (not same_axis) and (not reverse):
         return -1
     return 1
+
+
+# ---- stencil operators (C01) as getter transformers ------------------------------------------------
+
+def opterm(op, lo, hi):
+    if op == "diff":
+        return hi - lo
+    if op == "interp":
+        return (lo + hi) / 2
+    if op == "min":
+        return z3.If(lo <= hi, lo, hi)
+    if op == "max":
+        return z3.If(lo >= hi, lo, hi)
+    raise ValueError(op)
+
+
+def stencil(get, op, dfrom, dto, pf, pt, rule, fill, n):
+    """get: idx-dict -> term for an array having dimension dfrom (position pf, n cells);
+    returns the getter of op applied along that axis to position pt (dimension dto)"""
+    L = len_pos(pf, n)
+
+    def g2(idx):
+        j = idx[dto]
+        lo, hi = neighbours(pf, pt, j)
+        base = {k: v for k, v in idx.items() if k != dto}
+        vlo = ext(rule, lambda k: get({**base, dfrom: k}), L, lo, fill)
+        vhi = ext(rule, lambda k: get({**base, dfrom: k}), L, hi, fill)
+        return opterm(op, vlo, vhi)
+    return g2
